@@ -147,10 +147,11 @@ def encode_acase(tr, max_legs=None):
 
 # ----------------------------------------------------------------------------------------------
 def run_history_check(ctx, prop, oracle_props, encoders, trusted, assumptions, explanation,
-                      jobs=None, max_legs=None, coq_legs=None, replay_jobs=None, static_obligations=None):
+                      jobs=None, max_legs=None, coq_legs=None, replay_jobs=None, static_obligations=None, prebuilt=False):
     """Common body of the history checks.
     encoders: list of (name, header, checker, case_type, encode(trace) -> term or None)."""
-    C.build_scratch(ctx, exts=("heap", "mic", "ipc"))
+    if not prebuilt:
+        C.build_scratch(ctx, exts=("heap", "mic", "ipc"))
     broken = []
     ok, out, nthm = C.check_props(ctx)
     if not ok:
@@ -305,3 +306,27 @@ def encode_kcase(tr, max_legs=None):
 
 
 KIN_HEADER = "Require Import JF.Base.F64 JF.Model.Kinematics.\nFrom Coq Require Import ZArith."
+
+
+def encode_scase(tr, max_legs=None):
+    meta = tr["meta"]
+    k = encode_kcase(tr, max_legs)
+    if k is None:
+        return None
+    legs = tr["legs"][:max_legs]
+    per = []
+    endt = "None"
+    for hi, h in enumerate(meta["handlers"]):
+        cands = [t for leg in legs for (x, t) in leg["cands"] if x == hi]
+        dt = h.get("sampling_interval", h.get("dumping_interval"))
+        if dt is not None and "initial_event_time" in h:
+            per.append("{| p_dt := %s; p_t0 := %s; p_times := %s |}" % (
+                fbz(dt), coq_ftime(h["initial_event_time"]), C.coq_list([coq_ftime(t) for t in cands])))
+        if "EndOfRunEventHandler" in meta["taggers"][h["tagger"]]["handler_bases"] and cands \
+                and tr.get("end_of_run_time") is not None:
+            endt = "(Some (%s, %s))" % (fbz(tr["end_of_run_time"]), coq_ftime(cands[0]))
+    return "{| sc_k := %s; sc_periodic := %s; sc_end := %s |}" % (k, C.coq_list(per), endt)
+
+
+SAMPLING_HEADER = ("Require Import JF.Base.F64 JF.Model.Kinematics JF.Model.Sampling.\n"
+                   "From Coq Require Import ZArith.")
